@@ -120,7 +120,7 @@ def _is_null(instance, name):
 
         elif attr_ty == 'STRING':
             # empty string is reserved for null
-            return len(value) == 0
+            return value == ''
 
         else:
             #null-values for integer, boolean and real are not supported
